@@ -12,6 +12,12 @@ CHECKS = {
  'C02': dict(engine='pool', tech='TLA+ pool machine (spec/TTPool.tla; dense definitions DTensordot/DConcatG/DDiag/DSqueeze/DSplit/DMerge in spec/TTBase.tla) enumerated by TLC; behaviours replayed into scikit_tt',
              text='TLC enumerates operand shapes (incl. size-1 modes, rank-1 bonds, open boundary ranks), all four contraction modes with every axis count incl. complete contraction, mode factorisations and zero-block placements, computes the exact dense result and mode ordering, and every behaviour is replayed into the real code.',
              note='trusted: TLC, spec/TTBase.tla dense definitions, harness/pool.py projection; ranks of results only checked for consistency with cores', ref='§5 C02'),
+ 'C03': dict(engine='pool', tech='TLA+ pool machine gauge actions (GaugeLeft/GaugeRight bookkeeping of isometry flags, rank bounds, touched cores in spec/TTPool.tla) enumerated by TLC; behaviours replayed into scikit_tt',
+             text='TLC enumerates all shapes x fills (real, complex, rank-deficient, zero cores, over-parameterised ranks) and every admissible (start,end) of the left/right sweeps and ortho(), as one- and two-step histories; the model predicts the unchanged dense value, the cores that must be isometries, rank bounds and untouched cores; the replay checks each on the real object.',
+             note='trusted: TLC, spec gauge bookkeeping, harness/pool.py (isometry defect <= 1e-10, value 1e-9 relative)', ref='§5 C03'),
+ 'C06': dict(engine='pool', tech='TLA+ pool machine with value semantics (action property ValueSemantics checked by TLC); TLC enumerates call histories producer -> in-place over a pool of live objects; every live object projected and compared after every replayed step',
+             text='All two- and three-step histories (producer calls then in-place/overwrite calls on any live object) over shapes with rank-1 bonds and size-1 modes are enumerated by TLC from the pool machine; the real code is stepped along each and every live object is compared with the model state after every step, so a change of any non-target object (hidden aliasing or mutation) is a rejected trace.',
+             note='trusted: TLC, value-semantics model, harness/pool.py; routine calls (solvers, integrators, data-driven) are covered by the recorded-trace direction, see DESIGN', ref='§5 C06'),
 }
 NA_REASON = 'check not built yet (work in progress)'
 
